@@ -12,15 +12,94 @@ pub fn check(c: &Case) -> CheckResult {
     tablehist::check(c, Mode::C15)
 }
 
+// ---------------------------------------------------------------------------
+// the per-session prefix-limit counter through the daemon's TableManager: insert_route
+// decides which (maximum, counter) pair reaches Table::insert, remove_route which counter
+// is decremented; an import policy is in force so that rejected paths are held too
+// ---------------------------------------------------------------------------
+
+pub const TM_RULE: &str = "tm-limits: TableManager histories (3 peers, each session with its own prefix-limit counter and a generated maximum; inserts incl. replacements and extra path ids, removes, peer loss = new session with a fresh counter, import-policy soft resets that reject and re-admit paths). After every step the counter of each live session equals the number of distinct prefixes the RIB holds from that peer (accepted or rejected by import policy), it never wraps below zero, and the number of held prefixes exceeds the maximum only in a step whose insert signalled the limit (after which the session is closed, as the daemon does). non-trivial := the import policy rejects a path of a peer, or the limit is signalled";
+
+#[derive(Clone, Debug, serde::Serialize, serde::Deserialize)]
+pub struct TmCase {
+    pub max: u8,
+    pub ops: Vec<crate::props::tmrig::TmOp>,
+}
+
+pub fn check_tm(c: &TmCase) -> CheckResult {
+    use crate::props::tmrig::{Rig, TmOp, peer_ip};
+    use crate::table_manager::verif as tmv;
+    use std::collections::BTreeSet;
+    use std::sync::Arc;
+    use std::sync::atomic::{AtomicU64, Ordering};
+    let rig = Rig::new(false);
+    let max = c.max.max(1) as u32;
+    *rig.limits.borrow_mut() = Some((max, (0..3).map(|_| Arc::new(AtomicU64::new(0))).collect()));
+    let mut info = CaseInfo::trivial();
+    for (i, op) in c.ops.iter().enumerate() {
+        rig.exceeded.set(None);
+        rig.apply(op);
+        let signalled = rig.exceeded.get();
+        let (pre, post) = tmv::rib_views(&rig.tm);
+        if pre.len() != post.len() {
+            info.nontrivial = true;
+            info.classes.push("import-policy-rejects-a-path");
+        }
+        for p in 0..3u8 {
+            let me = format!("{}|", peer_ip(p));
+            let held: BTreeSet<String> = pre.keys().filter(|k| k.starts_with(&me)).map(|k| {
+                // (peer, family, PathNlri { path_id, nlri }) -> family + nlri
+                let fam = k.split('|').nth(1).unwrap_or("");
+                let nlri = k.split("nlri: ").nth(1).unwrap_or(k);
+                format!("{fam}|{nlri}")
+            }).collect();
+            let counter = rig.limits.borrow().as_ref().map(|(_, v)| v[p as usize].load(Ordering::Relaxed)).unwrap_or(0);
+            if counter > u32::MAX as u64 {
+                return Err(Failure::new("limit-counter", format!("step #{i} ({op:?}): the prefix-limit counter of peer {p} wrapped below zero ({counter:#x})")).with("what", "underflow"));
+            }
+            if counter != held.len() as u64 {
+                return Err(Failure::new("limit-counter", format!("step #{i} ({op:?}): the prefix-limit counter of peer {p}'s session is {counter}, the RIB holds {} distinct prefixes from it ({} of its paths rejected by import policy)", held.len(), pre.keys().filter(|k| k.starts_with(&me) && !post.contains_key(*k)).count())).with("what", if counter < held.len() as u64 { "under-count" } else { "over-count" }));
+            }
+            if held.len() as u64 > max as u64 && signalled != Some(p) {
+                return Err(Failure::new("limit-not-signalled", format!("step #{i} ({op:?}): peer {p} holds {} prefixes, its maximum is {max}, and the limit was not signalled", held.len())));
+            }
+        }
+        if let Some(p) = signalled {
+            // the daemon answers with Cease / maximum prefixes reached and the session ends
+            info.nontrivial = true;
+            info.classes.push("limit-signalled");
+            rig.apply(&TmOp::DropPeer { peer: p });
+        }
+    }
+    Ok(info)
+}
+
+pub fn arb_tm_case() -> impl proptest::strategy::Strategy<Value = TmCase> {
+    use crate::props::tmrig::TmOp;
+    use proptest::prelude::*;
+    let op = prop_oneof![
+        12 => (0u8..3, 0u8..8, 0u8..2, 0u8..6, 0u8..3).prop_map(|(peer, prefix, path_id, attrs, nh)| TmOp::Insert { peer, prefix, path_id, attrs, nh }),
+        5 => (0u8..3, 0u8..8, 0u8..2).prop_map(|(peer, prefix, path_id)| TmOp::Remove { peer, prefix, path_id }),
+        1 => (0u8..3).prop_map(|peer| TmOp::DropPeer { peer }),
+        3 => (0u8..3, 0u8..3).prop_map(|(peer, policy)| TmOp::SoftResetIn { peer, policy }),
+    ];
+    (prop_oneof![Just(1u8), Just(2), Just(3), Just(5), Just(200)], proptest::collection::vec(op, 1..30)).prop_map(|(max, ops)| TmCase { max, ops })
+}
+
 pub fn run(r: &Run) {
     r.set_rule(RULE);
     r.assume("'received' = prefixes with at least one path of the peer, 'accepted' = unfiltered paths of the peer (the meaning pinned by the existing suite)");
     r.assume("the limit counter is compared only while its session is up (a counter of a closed session is dead state)");
     r.prop("histories-with-limits", r.tier.pick(60_000, 2_000_000), || tablehist::arb_case(r.tier.pick(40, 120), true), check);
     r.prop("histories", r.tier.pick(20_000, 500_000), || tablehist::arb_case(r.tier.pick(40, 120), false), check);
+    r.assume(TM_RULE);
+    r.prop("tm-limits", r.tier.pick(60_000, 1_500_000), arb_tm_case, check_tm);
 }
 
-pub fn replay(_sub: &str, case: &Value) -> Result<CheckResult, String> {
+pub fn replay(sub: &str, case: &Value) -> Result<CheckResult, String> {
+    if sub == "tm-limits" {
+        return Ok(check_tm(&decode_case(case)?));
+    }
     let c: Case = decode_case(case)?;
     Ok(check(&c))
 }
